@@ -1,8 +1,9 @@
 """C11 — a transaction reference is committed at most once."""
 from checks.enginelib import *
+from checks import stresslib
 
 META = {
-    "text": 'Lean: Guard instantiated for references; theorems reference_unique over all accepted event sequences, commit_needs_miss, refused_changes_nothing / found_changes_nothing / loser_changes_nothing (a request whose reservation is refused or whose lookup finds the reference leaves the state unchanged and no entry with the reference is accepted from it). Tie: trace validation (guard-ref); oracle: committed transactions per reference.',
+    "text": 'Lean: Guard instantiated for references; theorems reference_unique over all accepted event sequences, commit_needs_miss, refused_changes_nothing / found_changes_nothing / loser_changes_nothing (a request whose reservation is refused or whose lookup finds the reference leaves the state unchanged and no entry with the reference is accepted from it). Tie: trace validation (guard-ref); oracle: committed transactions per reference value as committed; the entry a request wrote and the transaction it was answered carry the reference AS SUBMITTED (reference-altered); a request accepted although a transaction persisted before carries its reference as submitted (accepted-although-committed); references under several spellings (blanks, tab, newline, no-break space, letter case, NUL). Stage 2, the reservation primitive (no scheduling point inside): area engstress — goroutines released together by a spinning barrier call the real Referencer.take with one key (exactly one may win) and the real Commander with one reference (one accepted, one committed); a bounded search, rates and processors in coverage.stress.',
     "note": 'Trusted: Lean kernel; event extraction.',
     "technique": 'Lean 4 proof (Guard invariant) + trace validation + per-reference oracle + regenerated commander skeleton (extract/commander -> Generated/Commander.lean on every run): well-formedness of every control path by decide, refinement of this component by the interpreted skeleton under every schedule, observed runs re-executed in the skeleton system',
     "design_ref": '5 (C11)',
@@ -10,4 +11,13 @@ META = {
 
 
 def run(ctx):
+    area = stresslib.replay_area(ctx)
+    if area == stresslib.AREA:       # a replay of the stress stage: the bounded search alone
+        ctx.l1()
+        stresslib.run_stress(ctx, 'C11')
+        return
     run_check(ctx, 'C11', ["guard-ref"], lambda scn, run: sum(1 for q in scn["requests"] if q.get("ref")) >= 2, 'at least two requests share a reference')
+    if area is not None:
+        return
+    # stage 2: the reservation primitive (no scheduling point inside) under truly simultaneous goroutines
+    stresslib.run_stress(ctx, 'C11')
